@@ -63,7 +63,7 @@ PLAIN_READS = ["total_params", "mask", "regularization_list", "total_regularizat
                "curvature_reg_matrix", "curvature_reg_matrix_reduced", "reconstruction", "reconstruction_reduced", "reconstruction_dict",
                "mapped_reconstructed_data_dict", "mapped_reconstructed_image_dict", "mapped_reconstructed_data", "mapped_reconstructed_image",
                "data_subtracted_dict", "regularization_term", "reconstruction_noise_map", "reconstruction_noise_map_with_covariance",
-               "reconstruction_noise_map_dict", "regularization_weights_mapper_dict"]
+               "reconstruction_noise_map_dict", "regularization_weights_mapper_dict", "regularization_weights_from"]
 TINY_READS = ["log_det_regularization_matrix_term", "log_det_curvature_reg_matrix_term"]
 
 
@@ -382,6 +382,8 @@ def observe(inv, ds, objs, I, sb, job, rq, S2):
             rd["v"] = [{"key": key_of(k, objs), "v": need(ints(v, ES, False))} for k, v in inv.reconstruction_noise_map_dict.items()]
         elif q == "regularization_weights_mapper_dict":
             rd["v"] = [{"key": key_of(k, objs), "v": need(ints(v))} for k, v in inv.regularization_weights_mapper_dict.items()]
+        elif q == "regularization_weights_from":
+            rd["v"] = [need(ints(inv.regularization_weights_from(index=k))) for k in range(len(objs))]
         elif q in TINY_READS:
             x = float(np.real(getattr(inv, q)))
             m = sum(o["p"] for o in I["objs"] if o["reg"] != "none")
@@ -510,14 +512,15 @@ def _run_many(jobs):
 # ------------------------------------------------------------------------------------------------------------
 # validation
 # ------------------------------------------------------------------------------------------------------------
-def validate(ctx, recs, tag, chunk=60):
+def validate(ctx, recs, tag, chunk=160):
     import concurrent.futures as cf
 
     jobs = {}
     for k, r in enumerate(recs):
         r["id"] = k
         jobs[k] = r.pop("_job", None)
-    nch = max(1, min(16, math.ceil(len(recs) / chunk)))
+    nch = max(1, math.ceil(len(recs) / chunk))
+    nch = nch if nch > 16 else max(1, min(16, math.ceil(len(recs) / 25)))      # at most `chunk` records per JVM, 16 JVMs for small runs
     chunks = [recs[k::nch] for k in range(nch)]
     rejects = []
 
@@ -627,7 +630,7 @@ def run(ctx):
         jobs += jobs_of_list(rng, items, "tlc-list", codes=[int(x["c"]) for x in l], k=k)
     n_tlc = len(jobs)
     # 4. C->S: seeded random longer lists (sizes 3..12 / 1..3, Constant schemes, equal objects) and the tiny systems
-    n_rand = 160 if quick else 3000
+    n_rand = 160 if quick else 2000
     for k in range(n_rand):
         items, codes = random_list(rng, 4 if quick else 6)
         jobs += jobs_of_list(rng, items, "random-list", codes=codes, k=k)
